@@ -315,7 +315,8 @@ def _rm(*paths):
     for p in paths:
         try:
             if os.path.isdir(p) and not os.path.islink(p):
-                shutil.rmtree(p, ignore_errors=True)
+                # rdump of a directory cycle nests thousands of levels: too deep for shutil
+                subprocess.run(["rm", "-rf", p], stderr=subprocess.DEVNULL)
             else:
                 os.unlink(p)
         except OSError:
@@ -507,8 +508,8 @@ def run_case(ctx, case, paths, inf, only=None, timeout=WATCHDOG, tag=None):
             R.p("e2fsck -fn -j", "e2fsck", ["-fn", "-j", jnl, img])
             R.p("dumpe2fs(jnl)", "dumpe2fs", [jnl])
             R.p("dumpe2fs", "dumpe2fs", [img])
-            R.p("tune2fs -l(jnl)", "tune2fs", ["-l", jnl])
-            R.p("e2fsck -fn(jnl)", "e2fsck", ["-fn", jnl])
+            R.p("tune2fs -l", "tune2fs", ["-l", img])
+            R.p("dumpe2fs -x(jnl)", "dumpe2fs", ["-x", jnl])
             sp = os.path.join(workdir, tag + ".cmd")
             _write_script(sp, ["logdump -a -f %s" % jnl, "logdump -S -f %s" % jnl, "logdump -O -f %s" % jnl,
                                "logdump -c -f %s" % jnl, "logdump -a", "stats"])
@@ -641,6 +642,7 @@ def main(tier, seed, replay=None, scale=1.0):
                                   replay={"stage": "baseline", "base": list(r["baseline"]), "label": p["label"]})
         exit_hist = {}
         seen_keys = {}
+        cpu_by_label = {}
         confirmed_hangs = set()
         for r in results[len(bl_items):]:
             if "error" in r:
@@ -666,6 +668,7 @@ def main(tier, seed, replay=None, scale=1.0):
             for p in r["procs"]:
                 rep.count("processes")
                 rep.count("proc[%s]" % p["label"])
+                cpu_by_label[p["label"]] = cpu_by_label.get(p["label"], 0.0) + p["wall"]
                 st = "timeout" if p["to"] else ("sig%d" % p["sig"] if p["sig"] else "exit%s" % p["rc"])
                 exit_hist.setdefault(p["label"], {})
                 exit_hist[p["label"]][st] = exit_hist[p["label"]].get(st, 0) + 1
@@ -730,7 +733,9 @@ def main(tier, seed, replay=None, scale=1.0):
                               replay={"cid": r["cid"], "label": p["label"], "class": r["cls"], "base": r["base"],
                                       "descr": r["descr"], "frames": v.get("frames"), "case": r.get("case")},
                               files={"report.txt": (v.get("what", "") or "").encode()})
+        subprocess.run("rm -rf -- %s/*" % w.dir, shell=True, stderr=subprocess.DEVNULL)
         rep.extra["exit_status_histogram"] = exit_hist
+        rep.extra["wall_seconds_by_tool"] = {k: round(v, 1) for k, v in cpu_by_label.items()}
         rep.extra["violation_key_occurrences"] = seen_keys
     rep.extra["universe_size"] = UNIVERSE
     rep.extra["universe_ranges"] = {k: list(v) for k, v in RANGES.items()}
